@@ -57,7 +57,7 @@ def warm():
 
 def sizes(tier):
     if tier == "thorough":
-        return {"runs": 60000, "block": 100, "det": 64, "det_fresh": 8, "timeout": 3300, "conformance": 16, "order": 3000}
+        return {"runs": 60000, "block": 100, "det": 64, "det_fresh": 8, "timeout": 6500, "conformance": 16, "order": 2000}
     return {"runs": 2400, "block": 25, "det": 24, "det_fresh": 6, "timeout": 900, "conformance": 2, "order": 150}
 
 
@@ -126,6 +126,8 @@ def gen_sched(rng):
              "chunk": rng.weighted([("default", 5), ("one", 2), ("single", 1)]),
              # thread pools only: how many aotools lines a task body runs before the next body in flight gets the baton
              "tslice": [rng.choice([1, 2, 3, 5, 8, 13, 40, 200]) for _ in range(rng.randint(1, 12))],
+             # bounded waits (get / next with a timeout) on a result that is not there yet: time out (1) or arrive just in time (0)
+             "tmo": [rng.choice([0, 1, 1]) for _ in range(rng.randint(1, 6))],
              "advance": rng.weighted([(0, 6), (1, 1), (3, 1), (50, 1)])}
     if rng.chance(0.35):
         for _ in range(rng.randint(1, 2)):
@@ -294,14 +296,17 @@ def _run_steps(plan, sc, res, log, kern, objs_cfg, n_obj, refs, objs, last, buil
         c = obj(o)
         if op == "bad_build":
             old_threads = c.threads
-            c.threads = st.get("threads", 0)
             kern.configure(None, "inproc")
             try:
+                c.threads = st.get("threads", 0)          # (a tree may validate on assignment)
                 c.make_covariance_matrix()
                 log.add(si, "bad_build", o, "returned")
             except BaseException as e:
                 log.add(si, "bad_build", o, type(e).__name__)
-            c.threads = old_threads
+            try:
+                c.threads = old_threads
+            except Exception:
+                pass
             res.count("fault.build_that_raises")
             continue
         if op == "clone":
